@@ -13,7 +13,7 @@ Inductive cty :=
 | CStruct (fs : list cty)
 | CAnyUnion.                            (* union { void *value_ptr; uint8_t value[16]; } *)
 
-(* LLVM types as the compiler builds them (llir types.*) *)
+(* LLVM types as the compiler builds them with llir *)
 Inductive llty :=
 | LI1 | LI8 | LI32 | LI64 | LDouble | LVoid
 | LPtr (t : llty)
